@@ -387,6 +387,6 @@ REGISTRY.setdefault(P, []).append(HarnessInstance(P, _crosshair, {}, ("quick", "
 from vt.props import c04 as _c04  # noqa: E402
 
 for (a_, b_) in (((2, 3), (3, 2)), ((1, 4), (2, 2)), ((2, 2), (1, 4)), ((3, 2), (1, 6)), ((2, 2), (2, 3)), ((2, 3), (2, 2))):
-    REGISTRY.setdefault(P, []).append(HarnessInstance(P, _c04.consecutive_calls, dict(first=a_, second=b_, ihmax=2), ("quick", "thorough"), dict(max_paths=20000, time_budget=420, hard_timeout=800)))
+    REGISTRY.setdefault(P, []).append(HarnessInstance(P, _c04.consecutive_calls, dict(first=a_, second=b_, ihmax=2), ("quick", "thorough"), dict(max_paths=20000, time_budget=240, hard_timeout=500)))
 for (a_, m_, b_) in (((1, 4), (4, 1), (2, 3)), ((1, 3), (3, 1), (3, 3))):
-    REGISTRY.setdefault(P, []).append(HarnessInstance(P, _c04.consecutive_calls, dict(first=a_, mid=m_, second=b_, ihmax=2), ("quick", "thorough"), dict(max_paths=20000, time_budget=420, hard_timeout=800)))
+    REGISTRY.setdefault(P, []).append(HarnessInstance(P, _c04.consecutive_calls, dict(first=a_, mid=m_, second=b_, ihmax=2), ("quick", "thorough"), dict(max_paths=20000, time_budget=240, hard_timeout=500)))
